@@ -402,7 +402,9 @@ def run(pid, tier, seed, replay):
         if v["fail"]:
             groups.setdefault("".join(sorted(v["fail"])), []).append(i)
     for cl, ids in sorted(groups.items()):
-        best = min(ids, key=lambda i: (len(sid[i]["stim"]), sid[i]["pre"], sid[i]["stim"]))
+        # stable signature: prefer a plain forced-schedule script over its burst / bystander variants
+        best = min(ids, key=lambda i: (bool(sid[i].get("burst")), bool(sid[i].get("by")), len(sid[i]["stim"]),
+                                       sid[i]["pre"], sid[i]["stim"]))
         s = sid[best]
         sig = "C14:%s:%s%s%s" % (cl, "pre " if s["pre"] else "", "bystander " if s.get("by") else "", " ".join(s["stim"]))
         detail = "%d replayed scripts fail clause(s) %s\n" % (len(ids), ", ".join("(%s) %s" % (c, CLAUSES[c]) for c in cl))
